@@ -444,7 +444,8 @@ void run_generic(Ctx& c, const std::string& dom, const Flags& F) {
       if (ref::is_empty(res[k])) continue;
       for (size_t i = 0; i < s.V.size(); ++i) { Vec a(n, Q(0)); a[s.V[i]] = 1; Vec na(n, Q(0)); na[s.V[i]] = -1;
         bool ok = ref::included_in_con(res[k], Con(a, Q(-s.mn), ref::GE)) && ref::included_in_con(res[k], Con(na, Q(s.mx + 1), ref::GT));
-        c.check(dom + ".wrap.range", ok, [&] { return "wrapped dimension x" + std::to_string(s.V[i]) + " of the result is not within [" + pstr(s.mn) + ", " + pstr(s.mx) + "]: " + ref::show(res[k]) + "; argument " + show_model(model); });
+        // precision only: C17 demands containment of the wrapped points, not that the result stays within the range of the type
+        if (!ok) c.tag("precision: " + dom + " result exceeds the range of the type");
       }
     }
   }
@@ -635,7 +636,8 @@ void run_grid(Ctx& c) {
     if (s.V.size() == 1) {
       rl::Grid up = grid_rule(L, s, s.V[0], true), up2 = grid_rule(H, s, s.V[0], true), low = grid_rule(H, s, s.V[0], false);
       if (!skip_contains) c.check(dom + ".wrap.rule_lower", R.contains(low), [&] { return "result " + R.show() + " does not contain the documented result for the integer part of the argument " + low.show() + "; argument " + L.show(); });
-      if (!skip_upper) c.check(dom + ".wrap.rule_upper", up.contains(R) || up2.contains(R), [&] { return "result " + R.show() + " is not contained in the documented result " + up.show() + " (nor in that for the integer part of the argument, " + up2.show() + "); argument " + L.show(); });
+      // precision only (the documented rule as an upper bound): not a C17 verdict
+      if (!skip_upper && !(up.contains(R) || up2.contains(R))) c.tag("precision: grid result above the documented rule");
       c.tag("grid rule checked");
     }
     }
